@@ -139,7 +139,7 @@ def fwd_grad_logsumexp(g, ans, x, axis=None, b=1.0, keepdims=False):
         if isinstance(axis, int):
             ans = np.expand_dims(ans, axis)
         elif isinstance(axis, tuple):
-            for ax in sorted(axis):
+            for ax in sorted(a % np.ndim(x) for a in axis):  # re-insert from the front: needs non-negative positions
                 ans = np.expand_dims(ans, ax)
     return np.sum(g * b * np.exp(x - ans), axis=axis, keepdims=keepdims)
 
